@@ -192,6 +192,8 @@ def cfg_str(d):
 def shrink_candidates_value(v):
     """smaller variants of a cfg value (ints and ,/; separated lists of ints; op lists separated by '|')"""
     out = []
+    if v.startswith("grid:"):
+        return ["0:0:0", "1:0:1,0:0:0", "grid:7", "grid:8:2"]
     if re.fullmatch(r"-?\d+", v):
         n = int(v)
         for c in (0, 1, n // 2, n - 1):
